@@ -89,7 +89,9 @@ def run_sync(ctx, corr, tr, ix):
         lines.append(" ".join(["MATCH", str(int(sim.get("price_limit", True))), str(int(sim.get("inactive_limit", True))), str(int(sim.get("volume_limit", True))),
                                f2b(sim.get("volume_percent", 0.25)), kind, f2b(sim.get("slippage", 0)), f2b(tick_size(ix, o["book"]))] + ix.cfg_toks(o["book"]) + ord_toks(o) +
                               [of2b(deal), of2b(lu), of2b(ld), of2b(vol), str(int(listed_today)), str(int(m["auction"])), str(int(m["turnover"])), f2b(m["cash"] + o["init_frozen"]),
-                               f2b(fee), str(int(ct))]))
+                               f2b(fee), str(int(ct)),
+                               # (repaired F43) daily frequency, clock still at 00:00: a non-auction order is not matched at all
+                               str(int(tr.cfg.get("frequency", "1d") == "1d" and m["when"][0].hour == 0 and m["when"][0].minute == 0))]))
         meta.append(m)
     if not lines or not ctx.driver_ok:
         return
